@@ -7,6 +7,7 @@ import (
 	"errors"
 	"fmt"
 	"reflect"
+	"unsafe"
 
 	"github.com/cloudwego/frugal"
 	gthrift "github.com/cloudwego/gopkg/protocol/thrift"
@@ -112,3 +113,15 @@ func matchesRef(out []byte, s *core.StructSpec, v *core.SVal) (bool, []byte, err
 
 // fSizeRaw calls EncodedSize without catching its panic (C13 inspects the panic value).
 func fSizeRaw(v interface{}) (int, *Failure) { return frugal.EncodedSize(v), nil }
+
+func strData(s string) *byte   { return unsafe.StringData(s) }
+func sliceData(b []byte) *byte { return unsafe.SliceData(b) }
+func holderBytes(h reflect.Value) []byte {
+	if !h.CanAddr() {
+		// a by-value struct inside a map value: read through an addressable copy
+		c := reflect.New(h.Type()).Elem()
+		c.Set(h)
+		h = c
+	}
+	return *(*[]byte)(unsafe.Pointer(h.UnsafeAddr()))
+}
